@@ -426,6 +426,20 @@ def part_throw(ctx, nss, RegionGeomToO):
             plotinert.check(ctx, "RegionGeomToO.__call__", call, {"cfg": ci, "N": n}, spellings=("list", "name"))
             import logmode   # … and so is the logging configuration of the calling program
             logmode.check(ctx, "RegionGeomToO.__call__", lambda: call(None), {"cfg": ci, "N": n})
+            # the kept set is a function of the configuration and the instants, not of how often the object has been used: a second
+            # and a third call on ONE object (same N, then another N) against fresh objects
+            g_re = RegionGeomToO(cfg)
+            for rep_, n_re in enumerate((n, n, max(2, n // 2 + 1))):
+                with np.errstate(all="ignore"):
+                    r_old = g_re(n_re)
+                    r_new = RegionGeomToO(cfg)(n_re)
+                ctx.case(("reused-object", ci, rep_), None); ctx.count("reused_geometry_object_calls")
+                same_ = len(r_old[0]) == len(r_new[0]) and all(np.array_equal(np.asarray(a_), np.asarray(b_), equal_nan=True) for a_, b_ in zip(r_old[:3], r_new[:3]))
+                if not same_:
+                    ctx.violation("RegionGeomToO.__call__", "kept-set-depends-on-earlier-calls",
+                                  f"call number {rep_ + 1} on one object keeps {len(r_old[0])} instants, a fresh object with the same configuration keeps {len(r_new[0])} (N = {n_re})",
+                                  {"cfg": ci, "N": n_re, "call_number": rep_ + 1, "kept_on_reused_object": int(len(r_old[0])), "kept_on_fresh_object": int(len(r_new[0]))})
+                    break
         # nadir angle as the code derives it from astropy's altitude
         alt = np.radians(np.asarray(geom.alt_deg, dtype=np.float64))
         nm = np.array([h2f(t[0]) for t in run_driver([f"c13nadir {f2h(a)}" for a in alt[:20]])])
